@@ -149,4 +149,53 @@ def c18(pid, tier, replay):
     return simple.run_simple(pid, tier, plan, replay)
 
 
-CHECKS = {"C18": c18, "C13": n13, "C14": n13, "C08": g08, "C09": g09, "C10": g09, "C11": g11, "C12": g12, "C15": g15, "C16": g16}
+def c19(pid, tier, replay):
+    n = 25 if tier == Q else 250
+    plan = {
+        "module": "TraceStore", "cfg": "TraceStore.cfg", "own": r"^store\..*$",
+        "design": [("Store", "Store.cfg" if tier == Q else "Store_thorough.cfg", 1800)],
+        "jobs": [{"cmd": ["store-run", "--n", str(n), "--len", "12" if i % 2 == 0 else "20", "--seed", str(seed() * 100 + i)],
+                  "label": "shard%d" % i} for i in range(8)],
+        "replay_cmd": lambda path: ["store-run", "--replay", path],
+        "replay_whole_script": True,
+        "result_keys": ("res", "outside", "direxists"),
+        "nontrivial": lambda e: e.get("op") in ("Store", "Retrieve"),
+        "rule": "seeded random histories of Store (both no-clobber settings, documents with random node lists, also without "
+                "identifier) and Retrieve over identifiers from a hostile pool (path separators, dot-dot, absolute paths, "
+                "unicode, 4 kB, newline, empty), with injected faults: directory removed / replaced by a file / made "
+                "read-only / inaccessible, entry emptied / overwritten with garbage / replaced by another document / "
+                "made unreadable / deleted; every script runs in child processes as uid 65534 with a write-ahead journal, "
+                "after every Store all identifiers are retrieved; the directory tree around the store is listed after every step",
+        "assumptions": ["identifier strings are atoms for the specification (two different strings are different keys)",
+                        "a damaged entry is one that is empty, not decodable, or holds another document; a truncated entry that "
+                        "still decodes to a document with the requested identifier cannot be told from a valid one without a checksum",
+                        "permission faults are real only when the check can drop to uid 65534 (setpriv); recorded in the trace"],
+    }
+    return simple.run_simple(pid, tier, plan, replay)
+
+
+def c20(pid, tier, replay):
+    plan = {
+        "module": "TraceCrash", "cfg": "TraceCrash.cfg", "own": r"^crash\.(?!model-mismatch).*$",
+        "infra": r"^crash\.model-mismatch$",
+        "level": "fault_enumeration",
+        "design": [("StoreCrash", "StoreCrash_rename.cfg", 600)],
+        "jobs": [{"cmd": ["crash-run", "--torn", "sample" if tier == Q else "all"], "label": "crash-points"}],
+        "replay_cmd": lambda path: ["crash-run", "--torn", "sample"],
+        "result_keys": ("id_res", "id_doc", "other_res", "other_doc", "nfiles"),
+        "nontrivial": lambda e: e.get("op") == "Crash",
+        "rule": "the file-system calls of a real Store are recorded with strace for three scenarios (first store into a missing "
+                "directory, first store, overwrite; a bystander entry under another identifier); the storing process is then "
+                "killed for real (strace fault injection, SIGKILL) at the entry of EVERY one of those calls, and for every "
+                "write the torn prefixes {1, half, len-1} (thorough: every length) are completed by hand; after each crash "
+                "a fresh process retrieves the subject and the bystander. The recorded call sequence is also replayed on "
+                "the abstract file system of StoreCrash.tla where Atomic is evaluated after every call and for every torn "
+                "length of every write. distinct = (scenario, call index, torn length)",
+        "assumptions": ["crash = death of the process (page cache survives); power loss is out of scope",
+                        "POSIX semantics of openat/write/rename/unlink on one directory; rename is atomic",
+                        "strace observes all file-system calls of the store (it runs on one locked thread)"],
+    }
+    return simple.run_simple(pid, tier, plan, replay)
+
+
+CHECKS = {"C19": c19, "C20": c20, "C18": c18, "C13": n13, "C14": n13, "C08": g08, "C09": g09, "C10": g09, "C11": g11, "C12": g12, "C15": g15, "C16": g16}
